@@ -24,6 +24,8 @@ def run(tier, seed):
             # the same impostors announcing a TCP address (what they serve on is reached through it)
             for m in (["nocert", "othercert"] if tier == "quick" else ["nocert", "othercert", "chain"]):
                 cases.append({"name": "t%d" % len(cases), "kind": "impostor", "impostor": m, "proto": p, "tcp": True})
+        # a plugin with a net/rpc version 1 and a gRPC version 2 (gRPC server configured), negotiated down to version 1
+        cases.append({"name": "t%d" % len(cases), "kind": "intrude", "proto": "netrpc", "upgrade": True})
         # the plugin alone, with a host certificate that reached it damaged
         for p in ["netrpc", "grpc"]:
             cases.append({"name": "t%d" % len(cases), "kind": "mangled", "impostor": rng.choice(["firstline", "truncated", "garbage"]), "proto": p})
